@@ -77,6 +77,12 @@ def make_case(seed, shard, i):
         # raise: the run goes on, and the archive must still say what happened to every member
         members.insert(r.randint(0, len(members)), {"prog": {"scan": "*", "comps": [["fn", "nosuchfunction", [], []]], "mode": "AND"}, "ident": f"broken{i}" if r.random() < 0.6 else None, "extra": ""})
         cps_policy = ["collect", "print"]
+    if r.random() < 0.12:
+        # a member that fails the whole run with fail_all() on some line (or at the end): whatever that does to its
+        # siblings, earlier or later in the group, the archive has to say what the run left in memory
+        cond = r.choice([["eq", ["fn", "line_number", [], []], ["int", r.choice([0, 1, 2])]], ["fn", "last", [], []], ["fn", "yes", [], []]])
+        judge = {"scan": "*", "comps": [["when", cond, ["fn", "fail_all", [], []]]], "mode": "AND"}
+        members.insert(r.randint(0, len(members)), {"prog": judge, "ident": f"judge{i}" if r.random() < 0.6 else None, "extra": ""})
     return {"members": members, "rows": rows, "method": methods[i % len(methods)], "csvpaths_policy": cps_policy}
 
 
